@@ -5,7 +5,7 @@
 (* the ciphertext with HPKE.tla / ECIES.tla exactly as an independent RFC 9180 /   *)
 (* ECIES sender would, and writes the cases to IOEnv.VERIF_OUT.  The Go driver     *)
 (* feeds them to Tink's Decrypt; Trace_Hybrid judges the recorded calls.           *)
-(* For the ML-KEM based KEMs the encapsulation (ml_ct, ml_ss) to the recipient's   *)
+(* For the ML-KEM based HpkeKEMs the encapsulation (ml_ct, ml_ss) to the recipient's   *)
 (* ML-KEM key is the assumed primitive (made by Go's crypto/mlkem); everything     *)
 (* around it (X-Wing combiner, key schedule, sealing, framing) is built here.      *)
 (* Every case is also decrypted again by the reference (ok = round trip holds).    *)
@@ -38,9 +38,9 @@ MLD(e, param, seed, ct) ==
 
 Build(e) ==
   LET raw == IF e.scheme = "HPKE" THEN RawHPKE(e) ELSE RawECIES(e)
-      ct  == TinkFrame(e.variant, H(e.id), raw[2])
+      ct  == HybridFrame(e.variant, H(e.id), raw[2])
       back == IF e.scheme = "HPKE"
-              THEN TinkDecrypt(Suite(e), e.variant, H(e.id), H(e.skR), ct, H(e.info), LAMBDA p, s, c : MLD(e, p, s, c))
+              THEN HpkeTinkDecrypt(Suite(e), e.variant, H(e.id), H(e.skR), ct, H(e.info), LAMBDA p, s, c : MLD(e, p, s, c))
               ELSE EciesTinkDecrypt(ECfg(e), e.variant, H(e.id), H(e.skR), ct, H(e.info))
   IN [e EXCEPT !.ct = IF raw[1] THEN BytesToHex(ct) ELSE "", !.ok = raw[1] /\ back = <<TRUE, H(e.pt)>>]
 
